@@ -6,7 +6,7 @@
 (* dictionary projected to the grid, Gram products of cart_pos, and one    *)
 (* slab() call.  Every clause is evaluated by TLC against Crystal.tla.     *)
 (***************************************************************************)
-EXTENDS Crystal, TLC, Json, IOUtils
+EXTENDS Reexpress, TLC, Json, IOUtils
 
 CONSTANT NBlocks
 ASSUME TLCSet(1, JsonDeserialize(IOEnv.TRACE_FILE).traces)     \* parsed once, not once per worker
@@ -15,6 +15,7 @@ VARIABLES blk, tid
 
 Guard(t) ==
   IF ~(t.n % 12 = 0 /\ t.n <= 48 /\ Len(t.ops) > 0 /\ Len(t.asym) > 0 /\ HasIdentity(CodeSet(t.ops))) THEN "OOD shape" ELSE
+  IF ~SwitchedFromOK(t) THEN "OOD switch-proposal" ELSE
   IF ~MetricCompatible(t.ops, t.gram) THEN "OOD metric" ELSE
   IF ~OrbitsDisjointT(ImgTable(t.ops, t.asym, t.n)) THEN "OOD overlapping-orbits" ELSE
   IF ~WrapDomain(ApplyOps(t.ops, t.asym, t.n), t.n) THEN "OOD wrap-range" ELSE "ok"
